@@ -5,12 +5,14 @@
    every constraint goes through constraintPattern.  ~ and ^ read the main parts of both
    versions (Version.parse_core on the same texts). *)
 From Verif.Base Require Import Bytes GoNum Ord.
+From Verif.Gen Require Operators.
 From Verif.Eco Require Import RangeCore.
 From Verif.Eco.Conan Require Version.
 
 (* the alternation of constraintPattern, in source order; also the cases of isOperator *)
+(* the list is generated from the Go source on every run (tools/gen -> Gen/Operators.v) *)
 Definition conan_ops : list bytes :=
-  [ $">="; $">"; $"<="; $"<"; $"~"; $"^"; $"!="; $"=" ].
+  Eval cbv delta [Verif.Gen.Operators.conan_ops] in Verif.Gen.Operators.conan_ops.
 
 Definition is_operator (s : bytes) : bool := mem s conan_ops.
 
